@@ -30,7 +30,7 @@ ASSUMPTIONS = [
     'unique (and for append: fresh) keys; update mode is only used with update keys available',
     'numbers are binary fractions (exact in SQLite REAL); array/object values are JSON-native',
 ]
-BUDGET = {'quick': dict(examples=640, shards=8, seconds=75),
+BUDGET = {'quick': dict(examples=1280, shards=16, seconds=75),
           'thorough': dict(examples=30000, shards=16, seconds=1200)}
 
 K1 = ['a', 'b', 'a b', 'é']
